@@ -60,6 +60,7 @@ from ufl.constantvalue import ScalarValue, Zero, as_ufl
 from ufl.core.multiindex import FixedIndex, MultiIndex
 from ufl.corealg.dag_traverser import DAGTraverser
 from ufl.corealg.map_dag import map_expr_dag
+from ufl.corealg.traversal import unique_pre_traversal
 from ufl.domain import extract_unique_domain
 
 
@@ -233,6 +234,15 @@ class JacobianCanceller(IndexSumSimplifier):
         return None
 
 
+def _bound_indices(expr):
+    """Return the indices bound by IndexSum nodes inside expr."""
+    bound = set()
+    for node in unique_pre_traversal(expr):
+        if isinstance(node, IndexSum):
+            bound.update(node.ufl_operands[1].indices())
+    return bound
+
+
 def _identity_index(f, k):
     """If f is Identity[a, k] or Identity[k, a] with a != k, return a."""
     if isinstance(f, Indexed):
@@ -257,7 +267,13 @@ class IdentityEliminator(IndexSumSimplifier):
                 others = with_k[:i] + with_k[i + 1 :] + rest
                 if not others:
                     return None
-                return self._substitute(_make_product(others), k, a)
+                others = _make_product(others)
+                bound = _bound_indices(others)
+                if k in bound or a in bound:
+                    # Replacing k by a would rewrite or be captured by an
+                    # index bound inside the remaining factors
+                    return None
+                return self._substitute(others, k, a)
         return None
 
     # Work around singledispatchmethod inheritance issue;
